@@ -82,6 +82,14 @@ type Case struct {
 	EncVars []Var  `json:"encoded_result"` // Result's own Req/RespToSpoeActions()
 	// the sequence without its no-ops, through the real fold (response side)
 	VarsNoNoops []Var `json:"spoe_vars_without_noops,omitempty"`
+	// legacy mode (sides legacy_req / legacy_resp): the remedies declared, how
+	// many of them on the endpoint (the others globally), the request header
+	// that makes fixed-response remedies answer, the provider's status.
+	// Actions then holds what the remedy plugins returned.
+	Remedies    []Remedy `json:"remedies,omitempty"`
+	Split       int      `json:"split,omitempty"`
+	EarlyHeader bool     `json:"early_header,omitempty"`
+	RespStatus  int      `json:"resp_status,omitempty"`
 }
 
 func copyMap(m map[string]string) map[string]string {
@@ -440,9 +448,24 @@ func randCase(r *c.Rng, side string, maxLen int) Case {
 	return k
 }
 
+// tagged fills the fields other than kind and headers with values that name
+// the position of the action in the sequence (so that which action's status,
+// body, path ... ended up in the result is visible).
+func tagged(i int, a *Act) {
+	t := fmt.Sprint(i)
+	switch a.Kind {
+	case kModReq:
+		a.Host, a.Path, a.Query, a.Body = "h"+t, "/p"+t, "q="+t, "b"+t
+	case kGenReq:
+		a.Remove, a.Body = []string{"r" + t}, "b"+t
+	case kEarly, kModRes:
+		a.Status, a.Body = 200+i, "b"+t
+	}
+}
+
 // enumerate calls f with every sequence of (kind, small header map) of the
-// given length; scalar fields are drawn at random.
-func enumerate(r *c.Rng, side string, length int, f func(Case)) {
+// given length; the other fields are tagged with the position.
+func enumerate(side string, length int, f func(Case)) {
 	kinds := reqKinds
 	if side == "resp" {
 		kinds = respKinds
@@ -462,7 +485,7 @@ func enumerate(r *c.Rng, side string, length int, f func(Case)) {
 			if o > 0 {
 				a.Kind = kinds[1+(o-1)/9]
 				a.Headers = smallMap((o - 1) % 9)
-				scalars(r, &a)
+				tagged(i, &a)
 			}
 			k.Actions = append(k.Actions, a)
 		}
@@ -506,15 +529,25 @@ func main() {
 	o := c.NewOut("C07")
 	o.DeclareSuite("req", "From Verif Require Import C07.Model.", "case_req", "run_req")
 	o.DeclareSuite("resp", "From Verif Require Import C07.Model.", "case_resp", "run_resp")
-	o.Rule("request and response action sequences: every sequence of (kind, header map over keys {a,b} x values {1,2}) " +
-		"up to length 2 (quick) / 3 (thorough), every kind sequence of length 3-4 (quick) / 4-5 (thorough) with " +
-		"header maps sampled from the same 9 maps, other fields (status, body, path, host, query, remove list) drawn " +
-		"at random; then random sequences of length <= 12 over a pool of header names/values including nil maps, " +
-		"empty strings and strings with ':' / newline; distinct = distinct (inputs, observed result, observed " +
+	o.DeclareSuite("legacy_req", "From Verif Require Import C07.Model.", "case_legacy_req", "run_legacy_req")
+	o.DeclareSuite("legacy_resp", "From Verif Require Import C07.Model.", "case_legacy_resp", "run_legacy_resp")
+	o.Rule("request and response action sequences. Exhaustive part: every sequence over the alphabet {no-op} + " +
+		"{other kinds} x {9 header maps over keys {a,b} x values {1,2}} up to length 2 (quick, search) / 3 (thorough), " +
+		"status/body/path/host/query/remove-list tagged with the position; so every cell of both pairwise tables is " +
+		"run with every pair of these maps on every check. Then every kind sequence of length 3-4 (quick) / 4-5 " +
+		"(thorough) with maps sampled from the same 9 and the other fields drawn from small pools (empty strings " +
+		"included); then random sequences of length <= 12 over a pool of header names/values including nil maps, " +
+		"empty strings, upper case, and strings with ':' / newline; legacy suites: random lists of <= 6 " +
+		"fixed-response / account-orchestration / retry remedies split between endpoint and global scope, through " +
+		"runner.DispatchOnRequest / DispatchOnResponse. distinct = distinct (inputs, observed result, observed " +
 		"variables); non-trivial = at least two actions of the sequence are not no-ops")
 	var k Case
 	if _, ok := o.ReplayCase(&k); ok {
-		run(o, k)
+		if strings.HasPrefix(k.Side, "legacy_") {
+			runLegacy(o, k)
+		} else {
+			run(o, k)
+		}
 		o.Finish()
 		return
 	}
@@ -522,12 +555,12 @@ func main() {
 	f := func(k Case) { run(o, k) }
 	run(o, Case{Side: "req"})
 	run(o, Case{Side: "resp"})
+	o.Exhaustive(true) // within the scope the rule states for the tier
 	switch o.Tier {
 	case "thorough":
-		o.Exhaustive(true)
 		for l := 1; l <= 3; l++ {
-			enumerate(r, "req", l, f)
-			enumerate(r, "resp", l, f)
+			enumerate("req", l, f)
+			enumerate("resp", l, f)
 		}
 		kindSequences(r, "req", 4, 40, f)
 		kindSequences(r, "req", 5, 4, f)
@@ -535,8 +568,8 @@ func main() {
 		kindSequences(r, "resp", 5, 20, f)
 	case "search":
 		for l := 1; l <= 2; l++ {
-			enumerate(r, "req", l, f)
-			enumerate(r, "resp", l, f)
+			enumerate("req", l, f)
+			enumerate("resp", l, f)
 		}
 		kindSequences(r, "req", 3, 100, f)
 		kindSequences(r, "req", 4, 20, f)
@@ -544,8 +577,8 @@ func main() {
 		kindSequences(r, "resp", 4, 50, f)
 	default:
 		for l := 1; l <= 2; l++ {
-			enumerate(r, "req", l, f)
-			enumerate(r, "resp", l, f)
+			enumerate("req", l, f)
+			enumerate("resp", l, f)
 		}
 		kindSequences(r, "req", 3, 20, f)
 		kindSequences(r, "req", 4, 2, f)
@@ -557,6 +590,10 @@ func main() {
 	}
 	for i := 0; i < o.Scale(1000, 10000, 40000); i++ {
 		run(o, randCase(r, "resp", 12))
+	}
+	for i := 0; i < o.Scale(400, 4000, 8000); i++ {
+		runLegacy(o, randLegacy(r, "legacy_req"))
+		runLegacy(o, randLegacy(r, "legacy_resp"))
 	}
 	o.Finish()
 }
